@@ -275,6 +275,7 @@ func mergeIPAMConfig(c any, o any, path tree.Path) (any, error) {
 	if !ok {
 		return nil, fmt.Errorf("%s must be a list", path)
 	}
+	// configs not mentioned by the override are preserved
 	for i, original := range originals {
 		right, err := convertIntoMapping(original, nil, path.Next(fmt.Sprintf("[%d]", i)))
 		if err != nil {
@@ -283,39 +284,31 @@ func mergeIPAMConfig(c any, o any, path tree.Path) (any, error) {
 		if err := checkSubnet(right, path.Next(fmt.Sprintf("[%d]", i))); err != nil {
 			return nil, err
 		}
-		for j, override := range overrides {
-			left, err := convertIntoMapping(override, nil, path.Next(fmt.Sprintf("[%d]", j)))
-			if err != nil {
-				return nil, err
-			}
-			if err := checkSubnet(left, path.Next(fmt.Sprintf("[%d]", j))); err != nil {
-				return nil, err
-			}
-			if left["subnet"] != right["subnet"] {
-				// check if left is already in ipamConfigs, add it if not and continue with the next config
-				if !slices.ContainsFunc(ipamConfigs, func(a any) bool {
-					return a.(map[string]any)["subnet"] == left["subnet"]
-				}) {
-					ipamConfigs = append(ipamConfigs, left)
-					continue
-				}
-			}
-			merged, err := mergeMappings(right, left, path)
-			if err != nil {
-				return nil, err
-			}
-			// find index of potential previous config with the same subnet in ipamConfigs
-			indexIfExist := slices.IndexFunc(ipamConfigs, func(a any) bool {
-				return a.(map[string]any)["subnet"] == merged["subnet"]
-			})
-			// if a previous config is already in ipamConfigs, replace it
-			if indexIfExist >= 0 {
-				ipamConfigs[indexIfExist] = merged
-			} else {
-				// or add the new config to ipamConfigs
-				ipamConfigs = append(ipamConfigs, merged)
-			}
+		ipamConfigs = append(ipamConfigs, right)
+	}
+	for j, override := range overrides {
+		left, err := convertIntoMapping(override, nil, path.Next(fmt.Sprintf("[%d]", j)))
+		if err != nil {
+			return nil, err
 		}
+		if err := checkSubnet(left, path.Next(fmt.Sprintf("[%d]", j))); err != nil {
+			return nil, err
+		}
+		// find index of a config with the same subnet in ipamConfigs
+		indexIfExist := slices.IndexFunc(ipamConfigs, func(a any) bool {
+			return a.(map[string]any)["subnet"] == left["subnet"]
+		})
+		if indexIfExist < 0 {
+			// a new subnet: add the config to ipamConfigs
+			ipamConfigs = append(ipamConfigs, left)
+			continue
+		}
+		// same subnet: merge the override into the existing config
+		merged, err := mergeMappings(ipamConfigs[indexIfExist].(map[string]any), left, path)
+		if err != nil {
+			return nil, err
+		}
+		ipamConfigs[indexIfExist] = merged
 	}
 	return ipamConfigs, nil
 }
